@@ -1,4 +1,5 @@
 import Proofs.SrcBlocks
+import Proofs.SrcChain
 import Proofs.C10
 /-!
 # C10, from source bytes — `unless` is the dual of `if`; `if` renders its body exactly when the condition is truthy
@@ -200,6 +201,120 @@ theorem unless_source (P : Prims) (O : OutPrims) (cfg : Cfg) (fs : FS) (fuel : N
     simp only [wrapAt, renderBranches_cons, hcond false ht, Bool.not_false]
     rfl
 
+/-! ## The whole chain: `{% if c0 %}A0{% elsif c1 %}A1 … {% else %}E{% endif %}`
+
+`chainSrc c0 w0 A0 rest wE` (Proofs/SrcChain.lean) is the source of an `if` block with any number of
+`elsif`/`else` clauses (`Clause`: the condition text, or `none` for `else`; the white space of the tag; the
+body). The three theorems below are `if_denotation` (Proofs/C10.lean) read on source text: the block renders
+exactly the body of the first clause whose condition is truthy. `Clause.Good` (decidable): the condition
+is an expression and the body a self-contained template; `Clause.Falsy`: the clause is an `elsif` whose
+condition evaluates, in the environment of the render, to nil or false. -/
+
+/-- **C10 (the first branch), from source bytes.** If the condition of the `if` tag evaluates truthy, the
+    block — whatever clauses follow, as long as they compile — succeeds exactly when its first body `A0`
+    does (as a template of its own, where it stands), with exactly that output: later conditions are not
+    evaluated, later bodies not rendered. -/
+theorem if_chain_first_source (P : Prims) (O : OutPrims) (cfg : Cfg) (fs : FS) (fuel : Nat) (line : Nat) (env : Env)
+    (c0 : Bytes) (w0 : Ws) (A0 : List Item) (rest : List Clause) (wE : Ws) (e0 : Expr) (v0 : GoVal)
+    (hg : GoodDelims (Delims.ofList cfg.delims)) (hc : Clean (Delims.ofList cfg.delims) (chainSrc c0 w0 A0 rest wE))
+    (hcA : Clean (Delims.ofList cfg.delims) A0)
+    (hp : parseExprSource c0 = .ok e0) (hA : Compiles (Delims.ofList cfg.delims) A0 0)
+    (hrest : ∀ c ∈ rest, c.Good (Delims.ofList cfg.delims))
+    (hv : evaluate P env e0 = .ok v0) (ht : v0.test = true) (out : Bytes) :
+    run P O cfg fs fuel (spell (Delims.ofList cfg.delims) (chainSrc c0 w0 A0 rest wE)) line env = .ok out ↔
+    run P O cfg fs fuel (spell (Delims.ofList cfg.delims) A0)
+      (line + countNL ((tg nmIf c0 w0).spell (Delims.ofList cfg.delims))) env = .ok out := by
+  obtain ⟨n0, brs, h1, _, h3⟩ := run_chain_shape P O cfg fs fuel line env c0 w0 A0 rest wE e0 hg hc hp hA hrest
+  rw [h3, run_spell P O cfg fs fuel A0 _ env hg hcA, h1]
+  show _ ↔ runRoot P O cfg fs fuel n0 env = .ok out
+  apply runRoot_wrapped_body_ok P O cfg fs fuel _ n0 env ⟨line, true⟩
+  rw [renderNode]
+  have hcond : condRes (mkCtx P O cfg fs fuel).P (⟨env, {}⟩ : RS).env (.expr line e0) = .ok true := by
+    show condRes P env (.expr line e0) = .ok true
+    simp only [condRes, hv, ht]
+  simp only [wrapAt, renderBranches_cons, hcond]
+  rfl
+
+/-- **C10 (the first truthy clause), from source bytes.** If the condition of the `if` tag and the conditions
+    of the `elsif` clauses `pre` all evaluate falsy, and the next clause `sel` is an `else` or an `elsif` whose
+    condition evaluates truthy, then the block — whatever clauses `post` follow — succeeds exactly when the
+    body of `sel` does (as a template of its own, at the line where it stands), with exactly that output. -/
+theorem if_chain_clause_source (P : Prims) (O : OutPrims) (cfg : Cfg) (fs : FS) (fuel : Nat) (line : Nat) (env : Env)
+    (c0 : Bytes) (w0 : Ws) (A0 : List Item) (pre : List Clause) (sel : Clause) (post : List Clause) (wE : Ws) (e0 : Expr) (v0 : GoVal)
+    (hg : GoodDelims (Delims.ofList cfg.delims))
+    (hc : Clean (Delims.ofList cfg.delims) (chainSrc c0 w0 A0 (pre ++ sel :: post) wE))
+    (hcS : Clean (Delims.ofList cfg.delims) sel.body)
+    (hp : parseExprSource c0 = .ok e0) (hA : Compiles (Delims.ofList cfg.delims) A0 0)
+    (hrest : ∀ c ∈ pre ++ sel :: post, c.Good (Delims.ofList cfg.delims))
+    (hv : evaluate P env e0 = .ok v0) (hf : v0.test = false)
+    (hpre : ∀ c ∈ pre, c.Falsy P env)
+    (hsel : sel.cond = none ∨ ∃ t e v, sel.cond = some t ∧ parseExprSource t = .ok e ∧ evaluate P env e = .ok v ∧ v.test = true)
+    (out : Bytes) :
+    run P O cfg fs fuel (spell (Delims.ofList cfg.delims) (chainSrc c0 w0 A0 (pre ++ sel :: post) wE)) line env = .ok out ↔
+    run P O cfg fs fuel (spell (Delims.ofList cfg.delims) sel.body)
+      (line + countNL (spell (Delims.ofList cfg.delims) (tg nmIf c0 w0 :: (A0 ++ (clauseItems pre ++ [sel.tag]))))) env = .ok out := by
+  obtain ⟨n0, brs, _, h2, h3⟩ := run_chain_shape P O cfg fs fuel line env c0 w0 A0 (pre ++ sel :: post) wE e0 hg hc hp hA hrest
+  obtain ⟨bpre, t, ns, later, hbrs, hbp, hts, hns⟩ := BrsOf.split _ pre sel post _ brs h2
+  have hline : line + countNL (spell (Delims.ofList cfg.delims) (tg nmIf c0 w0 :: (A0 ++ (clauseItems pre ++ [sel.tag])))) =
+      line + countNL ((tg nmIf c0 w0).spell (Delims.ofList cfg.delims)) + countNL (spell (Delims.ofList cfg.delims) A0) +
+        countNL (spell (Delims.ofList cfg.delims) (clauseItems pre)) + countNL (sel.tag.spell (Delims.ofList cfg.delims)) := by
+    have h0 : countNL (spell (Delims.ofList cfg.delims) []) = 0 := rfl
+    simp only [spell_cons, spell_append, countNL_append, h0]
+    omega
+  rw [h3, hline, run_spell P O cfg fs fuel sel.body _ env hg hcS, hns, hbrs]
+  show _ ↔ runRoot P O cfg fs fuel ns env = .ok out
+  apply runRoot_wrapped_body_ok P O cfg fs fuel _ ns env ⟨line, true⟩
+  rw [renderNode]
+  have hcond0 : condRes (mkCtx P O cfg fs fuel).P (⟨env, {}⟩ : RS).env (.expr line e0) = .ok false := by
+    show condRes P env (.expr line e0) = .ok false
+    simp only [condRes, hv, hf]
+  have hcondS : condRes (mkCtx P O cfg fs fuel).P (⟨env, {}⟩ : RS).env t = .ok true := by
+    show condRes P env t = .ok true
+    unfold Clause.test at hts
+    rcases hsel with hn | ⟨tt, e, v, hcnd, hpe, hve, hvt⟩
+    · rw [hn] at hts
+      simp only [Option.some.injEq] at hts
+      subst hts
+      rfl
+    · rw [hcnd] at hts
+      simp only [hpe, Option.some.injEq] at hts
+      subst hts
+      simp only [condRes, hve, hvt]
+  have hfirst := if_first_truthy (mkCtx P O cfg fs fuel) ⟨env, {}⟩ ((.expr line e0, n0) :: bpre) t ns later
+    (by
+      intro b hb
+      rcases List.mem_cons.mp hb with rfl | hb
+      · exact hcond0
+      · exact BrsOf.falsy _ P env pre _ bpre hbp hpre b hb)
+    hcondS
+  simp only [List.cons_append] at hfirst
+  simp only [wrapAt, hfirst]
+  rfl
+
+/-- **C10 (no truthy clause), from source bytes.** If the condition of the `if` tag and of every clause —
+    all of them `elsif` clauses — evaluates falsy, the block renders nothing, successfully. -/
+theorem if_chain_none_source (P : Prims) (O : OutPrims) (cfg : Cfg) (fs : FS) (fuel : Nat) (line : Nat) (env : Env)
+    (c0 : Bytes) (w0 : Ws) (A0 : List Item) (rest : List Clause) (wE : Ws) (e0 : Expr) (v0 : GoVal)
+    (hg : GoodDelims (Delims.ofList cfg.delims)) (hc : Clean (Delims.ofList cfg.delims) (chainSrc c0 w0 A0 rest wE))
+    (hp : parseExprSource c0 = .ok e0) (hA : Compiles (Delims.ofList cfg.delims) A0 0)
+    (hrest : ∀ c ∈ rest, c.Good (Delims.ofList cfg.delims))
+    (hv : evaluate P env e0 = .ok v0) (hf : v0.test = false) (hall : ∀ c ∈ rest, c.Falsy P env) :
+    run P O cfg fs fuel (spell (Delims.ofList cfg.delims) (chainSrc c0 w0 A0 rest wE)) line env = .ok [] := by
+  obtain ⟨n0, brs, _, h2, h3⟩ := run_chain_shape P O cfg fs fuel line env c0 w0 A0 rest wE e0 hg hc hp hA hrest
+  rw [h3]
+  apply runRoot_silent
+  rw [renderNode]
+  have hcond0 : condRes (mkCtx P O cfg fs fuel).P (⟨env, {}⟩ : RS).env (.expr line e0) = .ok false := by
+    show condRes P env (.expr line e0) = .ok false
+    simp only [condRes, hv, hf]
+  have hnone := if_none (mkCtx P O cfg fs fuel) ⟨env, {}⟩ ((.expr line e0, n0) :: brs) (by
+    intro b hb
+    rcases List.mem_cons.mp hb with rfl | hb
+    · exact hcond0
+    · exact BrsOf.falsy _ P env rest _ brs h2 hall b hb)
+  simp only [wrapAt, hnone]
+  rfl
+
 /-! ## Non-vacuity, on concrete bytes (default delimiters `{{ }} {% %}`) -/
 
 /-- `a{{ y }}` and `b` -/
@@ -277,3 +392,49 @@ example : Clean Delims.default (ifElseSrc [116, 114, 117, 101] [ob [121]] [.text
     Clean Delims.default (unlessElseSrc [116, 114, 117, 101] [.text [10]] [ob [121]] Ws.std Ws.std Ws.std) ∧
     Compiles Delims.default [ob [121]] 1 ∧ Compiles Delims.default [.text [10]] 1 ∧
     countNL (spell Delims.default (ifElseSrc [116, 114, 117, 101] [ob [121]] [.text [10]] Ws.std Ws.std Ws.std)) = 1 := by decide
+
+/-! ### Non-vacuity of the chain theorems
+
+`{% if false %}a{% elsif nil %}b{% elsif 0 %}c{{ y }}{% else %}d{% endif %}`: the conditions `false` and `nil` are falsy,
+`0` is truthy — the block renders what `c{{ y }}` renders, for every value layer and environment. -/
+def c10Pre : List Clause := [⟨some [110, 105, 108], Ws.std, [.text [98]]⟩]
+def c10Sel : Clause := ⟨some [48], Ws.std, [.text [99], ob [121]]⟩
+def c10Post : List Clause := [⟨none, Ws.std, [.text [100]]⟩]
+
+example : spell Delims.default (chainSrc [102, 97, 108, 115, 101] Ws.std [.text [97]] (c10Pre ++ c10Sel :: c10Post) Ws.std) =
+    [123, 37, 32, 105, 102, 32, 102, 97, 108, 115, 101, 32, 37, 125, 97,
+     123, 37, 32, 101, 108, 115, 105, 102, 32, 110, 105, 108, 32, 37, 125, 98,
+     123, 37, 32, 101, 108, 115, 105, 102, 32, 48, 32, 37, 125, 99, 123, 123, 32, 121, 32, 125, 125,
+     123, 37, 32, 101, 108, 115, 101, 32, 37, 125, 100, 123, 37, 32, 101, 110, 100, 105, 102, 32, 37, 125] := by decide
+
+example (P : Prims) (O : OutPrims) (fs : FS) (env : Env) (out : Bytes) :
+    run P O {} fs 1 (spell Delims.default (chainSrc [102, 97, 108, 115, 101] Ws.std [.text [97]] (c10Pre ++ c10Sel :: c10Post) Ws.std))
+      1 env = .ok out ↔
+    run P O {} fs 1 (spell Delims.default [.text [99], ob [121]]) 1 env = .ok out :=
+  if_chain_clause_source P O {} fs 1 1 env [102, 97, 108, 115, 101] Ws.std [.text [97]] c10Pre c10Sel c10Post Ws.std
+    (.lit (.bool false)) (.bool false) (by decide) (by decide) (by decide) rfl (by decide) (by decide) rfl rfl
+    (by
+      intro c hc
+      simp only [c10Pre, List.mem_singleton] at hc
+      subst hc
+      exact ⟨[110, 105, 108], .lit .nil, .nil, rfl, rfl, rfl, rfl⟩)
+    (.inr ⟨[48], .lit (.int .int 0), .int .int 0, rfl, rfl, rfl, rfl⟩) out
+
+/-- `{% if nil %}a{% elsif false %}b{% endif %}` renders nothing -/
+example (P : Prims) (O : OutPrims) (fs : FS) (env : Env) :
+    run P O {} fs 1 (spell Delims.default (chainSrc [110, 105, 108] Ws.std [.text [97]]
+      [⟨some [102, 97, 108, 115, 101], Ws.std, [.text [98]]⟩] Ws.std)) 1 env = .ok [] :=
+  if_chain_none_source P O {} fs 1 1 env [110, 105, 108] Ws.std [.text [97]] [⟨some [102, 97, 108, 115, 101], Ws.std, [.text [98]]⟩]
+    Ws.std (.lit .nil) .nil (by decide) (by decide) rfl (by decide) (by decide) rfl rfl
+    (by
+      intro c hc
+      simp only [List.mem_singleton] at hc
+      subst hc
+      exact ⟨[102, 97, 108, 115, 101], .lit (.bool false), .bool false, rfl, rfl, rfl, rfl⟩)
+
+/-- `{% if 0 %}a{{ y }}{% elsif x %}b{% endif %}` renders what `a{{ y }}` renders, whatever `x` is -/
+example (P : Prims) (O : OutPrims) (fs : FS) (env : Env) (out : Bytes) :
+    run P O {} fs 1 (spell Delims.default (chainSrc [48] Ws.std c10A [⟨some [120], Ws.std, [.text [98]]⟩] Ws.std)) 1 env = .ok out ↔
+    run P O {} fs 1 (spell Delims.default c10A) 1 env = .ok out :=
+  if_chain_first_source P O {} fs 1 1 env [48] Ws.std c10A [⟨some [120], Ws.std, [.text [98]]⟩] Ws.std (.lit (.int .int 0))
+    (.int .int 0) (by decide) (by decide) (by decide) rfl (by decide) (by decide) rfl rfl out
